@@ -1,0 +1,74 @@
+//go:build verif
+
+// Contracts for package rules, checked by /verif/govc (comment-only file).
+// The spec functions below are the published rules (HotStuff PODC'19 Algorithm 4/5,
+// Fast-HotStuff, simplified HotStuff), written over the abstract block forest
+// (blockchain.getok / getblk: what Get yields for a hash) independently of the code.
+package rules
+
+// J follows a block's certificate to the certified block (nil if the hash is zero or the block is unobtainable).
+//@ pure func J(c *blockchain.Blockchain, b *hotstuff.Block) *hotstuff.Block = (b.cert.hash == hotstuff.Hash{} || !blockchain.getok(c, b.cert.hash)) ? nil : blockchain.getblk(c, b.cert.hash)
+// G is Get on the certificate hash without the zero-hash shortcut.
+//@ pure func G(c *blockchain.Blockchain, b *hotstuff.Block) *hotstuff.Block = !blockchain.getok(c, b.cert.hash) ? nil : blockchain.getblk(c, b.cert.hash)
+//@ pred direct(child *hotstuff.Block, parent *hotstuff.Block) = child.parent == parent.hash && child.view == wrapu64(parent.view + 1)
+
+//@ pred world(c *blockchain.Blockchain) = c != nil && blockchain.binv(c) && blockchain.bmaps(c) && c.sender != nil && c.eventLoop != nil && blockchain.fetchwf()
+
+// ---- chained HotStuff: three-chain commit, lock on the two-chain head, safety-or-liveness vote
+//@ pure func chsCommit(c *blockchain.Blockchain, bs *hotstuff.Block) *hotstuff.Block = (J(c, bs) == nil || J(c, J(c, bs)) == nil || J(c, J(c, J(c, bs))) == nil) ? nil : ((direct(J(c, bs), J(c, J(c, bs))) && direct(J(c, J(c, bs)), J(c, J(c, J(c, bs))))) ? J(c, J(c, J(c, bs))) : nil)
+//@ pure func chsLock(c *blockchain.Blockchain, bs *hotstuff.Block, lock *hotstuff.Block) *hotstuff.Block = (J(c, bs) == nil || J(c, J(c, bs)) == nil) ? lock : (J(c, J(c, bs)).view > lock.view ? J(c, J(c, bs)) : lock)
+//@ pure func chsVote(c *blockchain.Blockchain, b *hotstuff.Block, lock *hotstuff.Block) bool = (blockchain.getok(c, b.cert.hash) && blockchain.getblk(c, b.cert.hash).view > lock.view) || blockchain.anc(c, b, lock)
+
+//@ func (*ChainedHotStuff).CommitRule property C04
+//@   requires block != nil && hs.bLock != nil && world(hs.blockchain)
+//@   ensures [commit-equals-spec] result == old(chsCommit(hs.blockchain, block))
+//@   ensures [lock-equals-spec] hs.bLock == old(chsLock(hs.blockchain, block, hs.bLock))
+//@   modifies hs.bLock, hs.blockchain.blocks[*], hs.blockchain.blockAtHeight[*], hs.blockchain.pendingFetch[*], hs.blockchain.eventLoop.handlers[*], alloc
+
+//@ func (*ChainedHotStuff).VoteRule property C04
+//@   requires proposal.Block != nil && hs.bLock != nil && world(hs.blockchain)
+//@   requires blockchain.grows(hs.blockchain) && blockchain.hashdet()
+//@   ensures [vote-equals-spec] result == old(chsVote(hs.blockchain, proposal.Block, hs.bLock))
+//@   use return :: blockchain.anc_frame(hs.blockchain, proposal.Block, hs.bLock)
+//@   modifies hs.blockchain.blocks[*], hs.blockchain.blockAtHeight[*], hs.blockchain.pendingFetch[*], hs.blockchain.eventLoop.handlers[*], alloc
+
+//@ func (*ChainedHotStuff).ChainLength property C04
+//@   ensures result == 3
+
+// ---- Fast-HotStuff: two-chain commit; plain vote condition and the aggregate-QC one
+//@ pure func fhsCommit(c *blockchain.Blockchain, bs *hotstuff.Block) *hotstuff.Block = (J(c, bs) == nil || J(c, J(c, bs)) == nil) ? nil : ((direct(bs, J(c, bs)) && direct(J(c, bs), J(c, J(c, bs)))) ? J(c, J(c, bs)) : nil)
+//@ pure func fhsVote(c *blockchain.Blockchain, view hotstuff.View, b *hotstuff.Block, agg bool) bool = agg ? (blockchain.getok(c, b.cert.hash) && blockchain.anc(c, b, blockchain.getblk(c, b.cert.hash))) : (b.view >= view && b.view == wrapu64(b.cert.view + 1))
+
+//@ func (*FastHotStuff).CommitRule property C04
+//@   requires block != nil && world(fhs.blockchain)
+//@   ensures [commit-equals-spec] result == old(fhsCommit(fhs.blockchain, block))
+//@   modifies fhs.blockchain.blocks[*], fhs.blockchain.blockAtHeight[*], fhs.blockchain.pendingFetch[*], fhs.blockchain.eventLoop.handlers[*], alloc
+
+//@ func (*FastHotStuff).VoteRule property C04
+//@   requires proposal.Block != nil && world(fhs.blockchain)
+//@   requires blockchain.grows(fhs.blockchain) && blockchain.hashdet()
+//@   ensures [vote-equals-spec] result == old(fhsVote(fhs.blockchain, view, proposal.Block, proposal.AggregateQC != nil))
+//@   use return :: blockchain.anc_frame(fhs.blockchain, proposal.Block, blockchain.getblk(fhs.blockchain, proposal.Block.cert.hash))
+//@   modifies fhs.blockchain.blocks[*], fhs.blockchain.blockAtHeight[*], fhs.blockchain.pendingFetch[*], fhs.blockchain.eventLoop.handlers[*], alloc
+
+//@ func (*FastHotStuff).ChainLength property C04
+//@   ensures result == 2
+
+// ---- simplified HotStuff: lock on the grandparent, view-gap commit condition
+//@ pure func shsCommit(c *blockchain.Blockchain, bs *hotstuff.Block) *hotstuff.Block = (G(c, bs) == nil || G(c, G(c, bs)) == nil || G(c, G(c, G(c, bs))) == nil) ? nil : (wrapu64(G(c, G(c, G(c, bs))).view + 2) == G(c, bs).view ? G(c, G(c, G(c, bs))) : nil)
+//@ pure func shsLock(c *blockchain.Blockchain, bs *hotstuff.Block, lock *hotstuff.Block) *hotstuff.Block = (G(c, bs) == nil || G(c, G(c, bs)) == nil) ? lock : (G(c, G(c, bs)).view > lock.view ? G(c, G(c, bs)) : lock)
+//@ pure func shsVote(c *blockchain.Blockchain, view hotstuff.View, b *hotstuff.Block, lock *hotstuff.Block) bool = b.view >= view && blockchain.getok(c, b.cert.hash) && blockchain.getblk(c, b.cert.hash).view >= lock.view
+
+//@ func (*SimpleHotStuff).CommitRule property C04
+//@   requires block != nil && hs.locked != nil && world(hs.blockchain)
+//@   ensures [commit-equals-spec] result == old(shsCommit(hs.blockchain, block))
+//@   ensures [lock-equals-spec] hs.locked == old(shsLock(hs.blockchain, block, hs.locked))
+//@   modifies hs.locked, hs.blockchain.blocks[*], hs.blockchain.blockAtHeight[*], hs.blockchain.pendingFetch[*], hs.blockchain.eventLoop.handlers[*], alloc
+
+//@ func (*SimpleHotStuff).VoteRule property C04
+//@   requires proposal.Block != nil && hs.locked != nil && world(hs.blockchain)
+//@   ensures [vote-equals-spec] result == old(shsVote(hs.blockchain, view, proposal.Block, hs.locked))
+//@   modifies hs.blockchain.blocks[*], hs.blockchain.blockAtHeight[*], hs.blockchain.pendingFetch[*], hs.blockchain.eventLoop.handlers[*], alloc
+
+//@ func (*SimpleHotStuff).ChainLength property C04
+//@   ensures result == 3
